@@ -879,7 +879,7 @@ func c18Manager(t *testing.T) {
 	var keys []c18Key
 	stubs := []uint16{0, 20039, 20159, 1}
 	if thorough {
-		stubs = []uint16{0, 1, 20039, 20040, 20041, 20159, 65535, 30000}
+		stubs = []uint16{0, 1, 20039, 20040, 20041, 20159, 65535}
 	}
 	for _, u := range stubs {
 		keys = append(keys, c18StubKey(u))
@@ -929,13 +929,13 @@ func c18Manager(t *testing.T) {
 	var defs []sysdef
 	d2000 := time.Date(2000, 1, 1, 6, 0, 0, 0, time.UTC) // the bubble's clock starts at 2000-01-01 00:00 UTC
 	d2024 := time.Date(2024, 6, 1, 0, 0, 0, 0, time.UTC)
-	for _, k := range keys {
-		defs = append(defs, sysdef{k, false, d2024, "mock@2024"}, sysdef{k, true, d2000, "real@2000"})
-	}
 	if thorough {
 		// validity periods that straddle 2038-01-19 (32-bit time_t) and 2050-01-01 (X.509 UTCTime -> GeneralizedTime)
 		defs = append(defs, sysdef{keys[0], false, time.Date(2037, 12, 25, 0, 0, 0, 0, time.UTC), "mock@2038"},
 			sysdef{keys[len(keys)-1], false, time.Date(2049, 12, 1, 0, 0, 0, 0, time.UTC), "mock@2050"})
+	}
+	for _, k := range keys {
+		defs = append(defs, sysdef{k, false, d2024, "mock@2024"}, sysdef{k, true, d2000, "real@2000"})
 	}
 	for _, d := range defs {
 		if time.Now().After(vrep.Deadline()) {
